@@ -9,7 +9,7 @@ CHECKS = {
          "Random editing sessions against the real Cli; dispatch compared with an independent reference tokenisation/classification of the line observed just before Enter, the line itself with an ideal-editor model and a terminal emulator; a coverage-guided campaign (16 libFuzzer processes) searches the same session space with the same oracle; no exhaustive claim (session space is unbounded).", "6/C01"),
  "C02": ("exploration", "exhaustive enumeration of high-byte sequences + random malformed streams through the Cli, validity oracle and differential against std's UTF-8 decoder",
          "Exhaustive for all sequences of up to 3 bytes >= 0x80 (quick) / up to 4 bytes (thorough) at decoder level; sampled for whole-Cli streams.", "6/C02"),
- "C03": ("exploration", "coverage-guided fuzzing (cargo-fuzz/libFuzzer + ASan, 16 processes) + random raw-byte sessions (proptest), invariant oracle inside the target, process isolation for aborts; thorough adds generated sessions under Miri",
+ "C03": ("exploration", "coverage-guided fuzzing (cargo-fuzz/libFuzzer + ASan, 16 processes) + random raw-byte sessions (proptest), invariant oracle inside the target, process isolation for aborts; stack-depth probe on an unoptimised build; thorough adds generated sessions under Miri",
          "Panics, aborts, failed unsafe preconditions (debug assertions on), arithmetic overflow (checks on), sanitizer reports and the explicit invariants behind every unchecked operation are searched for over raw byte sessions with all buffer sizes 0..=64; absence is not established.", "6/C03"),
  "C04": ("exploration", "exhaustive concatenation of boundary key units + CSI length sweep + random streams, differential against a byte-level reference decoder",
          "Exhaustive to depth 4 (quick) / 5 (thorough) units over 28 boundary units, which exceeds the decoder's memory depth (previous byte + CSI flag + up to 3 pending UTF-8 bytes); every CSI length 0..=600 (thorough 5000) parameter bytes; random beyond.", "6/C04"),
